@@ -44,7 +44,7 @@ class Sched:
         self.have_syms = all(k in a for k in ("threadcount_mutex", "thd_mutex", "threadcount_cond"))
         self.runs = 0
 
-    def run(self, args, hosts, seed=1, spur=0, sigs=None, replay=None, pspur=10, ptick=5, timeout=20, env=None):
+    def run(self, args, hosts, seed=1, spur=0, sigs=None, replay=None, pspur=10, ptick=5, timeout=20, env=None, nofile=None):
         """hosts: list of (name, connect 'o'|'r'|'h', out_items, err_items, destroy_rc); returns Run"""
         self.runs += 1
         sc = os.path.join(self.dir, "script-%d.txt" % os.getpid())
@@ -64,7 +64,13 @@ class Sched:
         if env:
             e.update(env)
         try:
-            p = subprocess.run([self.exe] + args, env=e, stdout=subprocess.PIPE, stderr=subprocess.PIPE, timeout=timeout, stdin=subprocess.DEVNULL)
+            pre = None
+            if nofile:
+                import resource
+                def pre():
+                    resource.setrlimit(resource.RLIMIT_NOFILE, (nofile, nofile))
+            p = subprocess.run([self.exe] + args, env=e, stdout=subprocess.PIPE, stderr=subprocess.PIPE, timeout=timeout, stdin=subprocess.DEVNULL,
+                               preexec_fn=pre)
             code, errtxt = p.returncode, p.stderr.decode("latin-1", "replace")
         except subprocess.TimeoutExpired:
             code, errtxt = -999, "wall-clock timeout"
